@@ -1,29 +1,27 @@
-import SgVerif.C19.Model
+import SgVerif.C19.Lemmas
 import SgVerif.C21.Lemmas
 /-
 C19 — Update algorithms give the same timings.  Property theorems (exact arithmetic: `prec.work = 0`; the precision
 clamps shift each date by less than `sg_precision_timing`, which the correspondence absorbs in its 1e-9 tolerance).
 
-Full statement wanted (DESIGN §8 C19):  for every history of rate changes, suspend/resume, bound and penalty changes, the
+Full statement (DESIGN §8 C19):  for every history of rate changes, suspend/resume, bound and penalty changes, the
 date at which the Lazy heap completes the action equals the date at which Full's `remains` reaches 0, and TI's integral
 inversion gives the same date as stepping through the profile.
 What is proved:
-  * `lazy_eq_full_dates_partial`: every history of rate changes (piecewise-constant rates, any number of segments, rate 0
-    allowed = suspension as the solver sees it) — the user operations are covered through lemmas on each operation
-    (`suspend_keeps_virtual`, `setPenalty_changed`, `resume_changed`, `setBound_modified`) when they really modify the LMM
-    system;
-  * the full statement is FALSE on the current code for operations that do not modify the LMM system:
-    `lazy_noop_penalty_counterexample`, `lazy_noop_resume_counterexample` (the heap entry is dropped, nothing re-inserts it);
+  * `lazy_eq_full_dates` (FULL for a CPU action without deadline and with positive priorities): every history of engine
+    rounds, each made of user operations (suspend, resume, set_bound, set_sharing_penalty — whether or not they modify
+    the LMM system), a solve that may or may not touch the action, and a time advance.  It holds on the code since the
+    fix "re-setting an unchanged sharing penalty under the lazy update lost the completion date of the action";
+  * `lazy_noop_penalty_regression`, `lazy_noop_resume_regression`: on the code BEFORE that fix (`setPenaltyPre`,
+    `resumePre`) the statement was false for operations that do not modify the LMM system (the heap entry was dropped,
+    nothing re-inserted it); `setPenalty_noop_keeps`, `resume_noop_keeps`: the fixed functions leave the state alone;
+  * `lazy_remains_eq_full`, `lazy_eq_full_dates_rates`: the special case of histories of rate changes (every round touches
+    the action), kept from before the fix;
   * `ti_integral_eq_partial`: inside one period of the profile (the cyclic reduction `floor(amount/total)` of
     `CpuTiTmgr::solve` is not modelled).
 -/
 namespace SgVerif.C19
 open SgVerif.C21
-
-def p0 : Prec := { work := 0, timing := 0 }
-
-/-- what `get_remains()` would return now: the stored `remains` minus what the last rate consumed since `last_update` -/
-def virt (a : LAction) (now : Rat) : Rat := a.remains - a.lastValue * (now - a.lastUpdate)
 
 /-- an action the Lazy loop handles normally: running, enabled, positive penalty, no deadline, not in latency -/
 structure Live (a : LAction) : Prop where
@@ -33,9 +31,6 @@ structure Live (a : LAction) : Prop where
   nl : a.htype ≠ .latency
   md : a.maxDuration = none
   mo : a.modified = true
-
-theorem du0 {v d : Rat} (h : d ≤ v) : doubleUpdate 0 v d = v - d := by
-  unfold doubleUpdate; simp only; split <;> grind
 
 /-- one `resolve` of a live action whose virtual remains is positive: `remains` becomes the virtual remains, the rate is
 recorded, and the heap holds `now + remains/rate` -/
@@ -106,11 +101,11 @@ theorem lazy_remains_eq_full : ∀ (segs : List Seg) (now : Rat) (a : LAction), 
     refine ⟨this.1, this.2.1, ?_, this.2.2.2⟩
     rw [this.2.2.1]; simp only [work]; grind
 
-/-- **lazy_eq_full_dates** (partial: histories of rate changes).  After any such history, when the solver gives the final
+/-- special case of `lazy_eq_full_dates` (histories of rate changes; kept from before the fix).  After any such history, when the solver gives the final
 rate `r > 0`, the completion date stored in the Lazy heap is `now + R/r`, where `R` is Full's `remains` at that date; and
 Full, stepping at rate `r` (with arbitrary intermediate events), has `remains > 0` strictly before that date and exactly 0
 at it — so `update_actions_state_full` finishes the action at the date at which `update_actions_state_lazy` pops it. -/
-theorem lazy_eq_full_dates_partial (segs : List Seg) (t0 : Rat) (a : LAction) (r : Rat) (hr : 0 < r) (hl : Live a)
+theorem lazy_eq_full_dates_rates (segs : List Seg) (t0 : Rat) (a : LAction) (r : Rat) (hr : 0 < r) (hl : Live a)
     (hs : ∀ s ∈ segs, 0 ≤ s.rate ∧ 0 ≤ s.dur) (hf : 0 ≤ a.lastValue * (t0 - a.lastUpdate)) (hw : work segs < virt a t0) :
     let L := lazyRun p0 segs t0 a
     let F := fullRun p0 segs t0 (virt a t0)
@@ -160,34 +155,77 @@ theorem resume_changed (a : LAction) (hq : a.penalty ≠ a.varPenalty) (hpos : 0
 theorem setBound_modified (a : LAction) (now : Rat) (h : 0 < a.varPenalty) : (a.setBound now).modified = true := by
   unfold LAction.setBound; split <;> simp [h]
 
-/-- **Counterexample to the full statement** (current code): from any settled state (the action is not in the modified
-set, e.g. right after a solve) `set_sharing_penalty` with the current penalty drops the heap entry and leaves the action
-out of the modified set; no later round gives it a date (`resolve` is the identity), whatever the solver computes — while
-Full completes it (C21 `completion_exact`).  Witness on the real library: `exec 1000 flops @100; update_priority(1)` at
-t=5 never completes under cpu/optim:Lazy and completes at t=10 under Full (props/C19/corpus.txt). -/
-theorem lazy_noop_penalty_counterexample (p : Prec) (a : LAction) (hm : a.modified = false)
+/-- `set_sharing_penalty` with the penalty the variable already has leaves the whole Lazy state alone (heap entry and
+`ActionHeap::Type` included): `update_variable_penalty` returns at once and `changed` is false -/
+theorem setPenalty_noop_keeps (a : LAction) (hq : a.varPenalty = a.penalty) : a.setPenalty a.penalty = a := by
+  cases a
+  simp_all [LAction.setPenalty, LAction.lmmSetPenalty]
+
+/-- `resume()` of an action whose variable is already enabled with its penalty (e.g. after a priority change made while
+it was suspended, which re-enables the variable) only resets `suspended_` -/
+theorem resume_noop_keeps (a : LAction) (hq : a.varPenalty = a.penalty) : a.resume = { a with suspended := false } := by
+  unfold LAction.resume LAction.lmmSetPenalty
+  simp [hq]
+
+/-- **Regression (code before the fix).**  From any settled state (the action is not in the modified set, e.g. right after
+a solve) `set_sharing_penalty` with the current penalty dropped the heap entry and left the action out of the modified
+set; no later round gave it a date (`resolve` is the identity), whatever the solver computed — while Full completes it
+(C21 `completion_exact`).  Witness on the library before the fix: `exec 1000 flops @100; update_priority(1)` at t=5 never
+completed under cpu/optim:Lazy and completed at t=10 under Full (props/C19/corpus.txt). -/
+theorem lazy_noop_penalty_regression (p : Prec) (a : LAction) (hm : a.modified = false)
     (hq : a.varPenalty = a.penalty) :
-    ∀ t r, ((a.setPenalty a.penalty).resolve p t r).heap = none ∧
-           ((a.setPenalty a.penalty).resolve p t r).modified = false ∧
-           (((a.setPenalty a.penalty).resolve p t r).updateStateLazy p t).finished = a.finished := by
+    ∀ t r, ((a.setPenaltyPre a.penalty).resolve p t r).heap = none ∧
+           ((a.setPenaltyPre a.penalty).resolve p t r).modified = false ∧
+           (((a.setPenaltyPre a.penalty).resolve p t r).updateStateLazy p t).finished = a.finished := by
   intro t r
-  have h1 : a.setPenalty a.penalty = { a with heap := none, htype := .unset } := by
-    unfold LAction.setPenalty LAction.lmmSetPenalty; simp [hq]
+  have h1 : a.setPenaltyPre a.penalty = { a with heap := none, htype := .unset } := by
+    unfold LAction.setPenaltyPre LAction.lmmSetPenalty; simp [hq]
   rw [h1]
   unfold LAction.resolve
   simp [hm, LAction.updateStateLazy]
 
-/-- same defect through `resume()` on an action whose variable is already enabled (e.g. after a priority change made
-while it was suspended: `set_sharing_penalty` re-enabled the variable) -/
-theorem lazy_noop_resume_counterexample (p : Prec) (a : LAction) (hm : a.modified = false)
+/-- same defect (before the fix) through `resume()` on an action whose variable is already enabled -/
+theorem lazy_noop_resume_regression (p : Prec) (a : LAction) (hm : a.modified = false)
     (hq : a.varPenalty = a.penalty) :
-    ∀ t r, (a.resume.resolve p t r).heap = none ∧ (a.resume.resolve p t r).modified = false := by
+    ∀ t r, (a.resumePre.resolve p t r).heap = none ∧ (a.resumePre.resolve p t r).modified = false := by
   intro t r
-  have h1 : a.resume = { a with suspended := false, heap := none, htype := .unset } := by
-    unfold LAction.resume LAction.lmmSetPenalty; simp [hq]
+  have h1 : a.resumePre = { a with suspended := false, heap := none, htype := .unset } := by
+    unfold LAction.resumePre LAction.lmmSetPenalty; simp [hq]
   rw [h1]
   unfold LAction.resolve
   simp [hm]
+
+/-- **lazy_eq_full_dates** (full, CPU action without deadline, positive priorities).  Take the Lazy view `a` and the Full
+view `f` of an action (`Rel`), and any history of engine rounds — user operations at the current date (suspend, resume,
+set_bound, set_sharing_penalty with any positive value, including the ones that do not modify the LMM system), a solve
+that touches the action or not and gives it any rate ≥ 0 (the same as before when the action is not touched), a time
+advance — during which Full's action does not complete.  Then the two views still agree (`get_remains()` under Lazy =
+Full's `remains`), and whenever the action progresses (`rate > 0`) the date under which it sits in the Lazy heap is
+`now + R/rate` with `R` Full's `remains`: Full, stepping at that rate through arbitrary intermediate events, has
+`remains > 0` strictly before that date and exactly 0 at it — `update_actions_state_full` finishes the action at the date
+at which `update_actions_state_lazy` pops it. -/
+theorem lazy_eq_full_dates (steps : List Step) (t0 : Rat) (a : LAction) (f : Action) (hR : Rel t0 a f)
+    (hok : ∀ s ∈ steps, StepOk s) (hal : StaysAlive p0 steps f) :
+    let now := (runOps p0 steps t0 a f).1
+    let L := (runOps p0 steps t0 a f).2.1
+    let F := (runOps p0 steps t0 a f).2.2
+    F.remains = virt L now ∧
+    ((steps ≠ [] ∨ a.modified = false) → 0 < F.rate →
+      L.heap = some (now + F.remains / F.rate) ∧
+      doubleUpdate 0 F.remains (F.rate * (F.remains / F.rate)) = 0 ∧
+      (∀ δ, 0 ≤ δ → δ < F.remains / F.rate → 0 < doubleUpdate 0 F.remains (F.rate * δ))) := by
+  obtain ⟨hrel, hmod⟩ := rel_run steps t0 a f hR hok hal
+  simp only
+  refine ⟨hrel.rem, fun hc hr => ⟨rel_heap_date hrel (hmod hc) hr, ?_, ?_⟩⟩
+  · have : (runOps p0 steps t0 a f).2.2.rate *
+        ((runOps p0 steps t0 a f).2.2.remains / (runOps p0 steps t0 a f).2.2.rate) =
+        (runOps p0 steps t0 a f).2.2.remains := by
+      rw [Rat.mul_comm]; exact Rat.div_mul_cancel (by grind)
+    rw [this]; unfold doubleUpdate; simp only [Rat.sub_self]; split <;> rfl
+  · intro δ _ hδ
+    have h := (Rat.lt_div_iff hr).mp hδ
+    rw [du0 (by rw [Rat.mul_comm]; exact Rat.le_of_lt h)]
+    rw [Rat.mul_comm]; grind
 
 /-! ### TI -/
 
@@ -227,7 +265,7 @@ theorem ti_integral_eq_partial : ∀ (pieces : List Piece) (now amount : Rat), (
 
 /-! ### non-vacuity -/
 
-/-- hypotheses of `lazy_eq_full_dates_partial` on a non-trivial history: cost 10, rate 2 for 1 s, suspended (rate 0) for
+/-- hypotheses of `lazy_eq_full_dates_rates` on a non-trivial history: cost 10, rate 2 for 1 s, suspended (rate 0) for
 3 s, rate 1 for 2 s — 6 units of work still to do when the final rate arrives -/
 example : let a : LAction := { cost := 10, remains := 10 }
     Live a ∧ (∀ s ∈ [Seg.mk 2 1, Seg.mk 0 3, Seg.mk 1 2], 0 ≤ s.rate ∧ 0 ≤ s.dur) ∧
@@ -237,8 +275,31 @@ example : let a : LAction := { cost := 10, remains := 10 }
   · show (0 : Rat) ≤ 0 * (0 - 0); grind
   · show (2 : Rat) * 1 + (0 * 3 + (1 * 2 + 0)) < 10 - 0 * (0 - 0); grind
 
-/-- hypotheses of the counterexamples: the state right after a solve (not in the modified set, variable enabled with the
-action's penalty) -/
+/-- hypotheses of `lazy_eq_full_dates`: a fresh exec of 10 flops (`Action` constructor on both sides) and the history
+"update_priority(current priority), rate 2 for 1 s; suspend, 3 s; resume + set_bound, rate 1 for 2 s" -/
+example : let a : LAction := { cost := 10, remains := 10 }
+    let f : Action := { cost := 10, remains := 10 }
+    let steps : List Step := [⟨[.setPenalty 1], true, 2, 1⟩, ⟨[.suspend], false, 0, 3⟩, ⟨[.resume, .setBound], false, 1, 2⟩]
+    Rel 0 a f ∧ (∀ s ∈ steps, StepOk s) ∧ StaysAlive p0 steps f := by
+  refine ⟨?_, ?_, ?_⟩
+  · constructor <;> simp [virt] <;> grind
+  · intro s hs
+    simp at hs
+    rcases hs with rfl | rfl | rfl <;> (refine ⟨?_, ?_, ?_⟩ <;> simp [OpOk] <;> grind)
+  · simp [StaysAlive, fullStep, fullSolve, applyF, Action.setPenalty, Action.suspend, Action.resume, Action.rate,
+      Action.updateRemains, p0, doubleUpdate]
+    grind
+
+/-- the witness of the fixed defect on the model: `exec 1000 flops @100; update_priority(1)` at t=5 (the solver does not
+touch the action in that round): the heap still holds t=10 one second later -/
+example : (runOps p0 [⟨[], true, 100, 5⟩, ⟨[.setPenalty 1], false, 100, 1⟩] 0
+    ({ cost := 1000, remains := 1000 } : LAction) ({ cost := 1000, remains := 1000 } : Action)).2.1.heap = some 10 := by
+  simp [runOps, lazyStep, fullStep, fullSolve, LAction.apply, LAction.setPenalty, LAction.lmmSetPenalty, LAction.resolve,
+    LAction.updateRemainsLazy, p0, doubleUpdate]
+  grind
+
+/-- hypotheses of the regression theorems and of the `_noop_keeps` lemmas: the state right after a solve (not in the
+modified set, variable enabled with the action's penalty) -/
 example : let a : LAction := { cost := 1000, remains := 1000, modified := false, heap := some 10, htype := .normal }
     a.modified = false ∧ a.varPenalty = a.penalty := ⟨rfl, rfl⟩
 
